@@ -554,6 +554,42 @@ func checkResponses(c *Ctx, r *Report, ver, pkgRel, gcs string, respT, opT *type
 			if k, isConst := st.Val.(*ssa.Const); isConst && k.IsNil() {
 				return
 			}
+			// `var content T; if v != nil { content = … }; Response{Content: content}`: one store of a merged
+			// value - content is produced on the edges that bring a non-nil value, none on the others
+			if phi, isPhi := stripTrivial(st.Val).(*ssa.Phi); isPhi && len(phi.Edges) == len(phi.Block().Preds) {
+				okPhi := true
+				for i, e := range phi.Edges {
+					pred := phi.Block().Preds[i]
+					// what is known on the edge pred -> merge
+					known := 0
+					for _, f := range dominatingFacts(pred) {
+						if v := valueNilFact(f.Cond, f.Pol); v != 0 {
+							known = v
+						}
+					}
+					if ifi, ok := pred.Instrs[len(pred.Instrs)-1].(*ssa.If); ok && len(pred.Succs) == 2 {
+						for si, sc := range pred.Succs {
+							if sc == phi.Block() {
+								if v := valueNilFact(ifi.Cond, si == 0); v != 0 {
+									known = v
+								}
+							}
+						}
+					}
+					k, isConst := e.(*ssa.Const)
+					isNil := isConst && k.IsNil()
+					if (isNil && known != 1) || (!isNil && known != -1) {
+						okPhi = false
+					}
+				}
+				nStores++
+				storeBlocks[st.Block()] = true
+				sites = append(sites, w.pos(st.Pos()))
+				if !okPhi {
+					viol = fmt.Sprintf("%s: the content stored is a merged value whose nil / non-nil sides do not coincide with `GetValueReturnType() == nil` / `!= nil`", w.pos(st.Pos()))
+				}
+				return
+			}
 			nStores++
 			storeBlocks[st.Block()] = true
 			sites = append(sites, w.pos(st.Pos()))
